@@ -229,4 +229,21 @@ func init() {
 			ruleACT1(c)
 		},
 	})
+
+	register(&PropSpec{
+		ID:    "C12",
+		Level: "other",
+		Explanation: "Absence of every panic and hang for all byte strings is out of reach of a static argument. Decided are six families of crash / silent failure that are visible in code shape, each exact: panics of front-end actions whose condition depends on grammar text (CRASH-1), results of functions with an explicit `return nil` dereferenced without a check (CRASH-2), the front end's 'validated by the lexer' beliefs checked against the grammar source and the checked-in lexer tables: token-type switches with panicking defaults, escape letters and digit counts (CRASH-3), closed enum and type switches with panicking defaults (CRASH-4), results crossing the trust boundary (packages.Load, Scope.Lookup) used only under a dominating check (CRASH-5), exit discipline: non-zero exit iff error, success only after all three emitters wrote their files, every failing return preceded by a diagnostic (CRASH-6, EMIT-1), and the binding verdicts whose omission ends in an assert (BIND-2). " +
+			"NOT decided: hangs, stack/heap exhaustion, panics inside Jet / go/format / go/packages, index arithmetic in rang3 and on_char_class.",
+		Run: func(c *Ctx) {
+			ruleCRASH1(c)
+			ruleCRASH2(c)
+			ruleCRASH3(c)
+			ruleCRASH4(c)
+			ruleCRASH5(c)
+			ruleCRASH6(c)
+			ruleEMIT1(c, "CRASH-6")
+			ruleBIND2(c)
+		},
+	})
 }
